@@ -1,6 +1,7 @@
 package main
 
 import (
+	"runtime/pprof"
 	"encoding/json"
 	"flag"
 	"fmt"
@@ -43,10 +44,16 @@ func main() {
 	baseDir := flag.String("baseline", "/verif/baseline", "directory with the accepted baseline (<prop>.json: obligations proved on the accepted tree)")
 	writeBaseFlag := flag.Bool("write-baseline", false, "rewrite the baseline of this property from this run")
 	seed := flag.Int("seed", 0, "seed")
+	cpuprof := flag.String("cpuprofile", "", "write a CPU profile here")
 	flag.Parse()
+	if *cpuprof != "" {
+		pf, _ := os.Create(*cpuprof)
+		pprof.StartCPUProfile(pf)
+		go func() { time.Sleep(60 * time.Second); pprof.StopCPUProfile(); pf.Close(); os.Exit(9) }()
+	}
 	t0 := time.Now()
 
-	v := &Verifier{fset: token.NewFileSet(), pkgs: map[string]*packages.Package{}, repoPkgs: map[string]bool{}, funcs: map[string]*FuncUnit{}, byObj: map[*types.Func]*FuncUnit{},
+	v := &Verifier{costMemo: map[*types.Func]int{}, fset: token.NewFileSet(), pkgs: map[string]*packages.Package{}, repoPkgs: map[string]bool{}, funcs: map[string]*FuncUnit{}, byObj: map[*types.Func]*FuncUnit{},
 		cs: &ContractSet{Funcs: map[string]*Contract{}}, fieldOwner: map[*types.Var]string{}, cells: map[string]*types.Var{}, renderTag: map[string]string{}}
 	cfg := &packages.Config{Mode: packages.NeedName | packages.NeedFiles | packages.NeedSyntax | packages.NeedTypes | packages.NeedTypesInfo | packages.NeedImports | packages.NeedDeps,
 		Dir: *repo, BuildFlags: []string{"-tags=verif"}, Fset: v.fset}
